@@ -3,6 +3,7 @@ import threading
 from typing import Any
 
 from sqllineage.exceptions import ConfigException
+from sqllineage.utils.verif import emit as _verif_emit
 
 
 class _SQLLineageConfigLoader:
@@ -28,6 +29,7 @@ class _SQLLineageConfigLoader:
 
     def __getattr__(self, item: str):
         if item in self.config.keys():
+            _verif_emit("config.getattr", item=item)
             if (
                 value := self._thread_config.get(self.get_ident(), {}).get(item)
             ) is not None:
@@ -50,6 +52,7 @@ class _SQLLineageConfigLoader:
             super().__setattr__(key, value)
 
     def __call__(self, *args, **kwargs):
+        _verif_emit("config.call", kwargs=kwargs)
         if self.get_ident() not in self._thread_config.keys():
             self._thread_config[self.get_ident()] = {}
         for key, value in kwargs.items():
@@ -62,12 +65,14 @@ class _SQLLineageConfigLoader:
         return self
 
     def __enter__(self):
+        _verif_emit("config.enter")
         if (thread_id := self.get_ident()) not in self._thread_in_context_manager:
             self._thread_in_context_manager.add(thread_id)
         else:
             raise ConfigException("SQLLineageConfig context manager is not reentrant")
 
     def __exit__(self, exc_type, exc_val, exc_tb):
+        _verif_emit("config.exit")
         thread_id = self.get_ident()
         if thread_id in self._thread_config:
             self._thread_config.pop(self.get_ident())
